@@ -200,6 +200,32 @@ def i4(rep, w):
                     both = True
     r.check(bool(heq) and bool(seq) and both, 'find_index matches a filled slot only on equal hash and equal text',
             'find_index returns a filled slot without comparing both the hash and the text: different strings can be identified', fx.loc())
+    # single probe implementation: outside find_index, slots of the table are only addressed by an index that find_index
+    # returned (a second, hand-written probe sequence must agree with the first one on every slot -- including the wrap-around)
+    FI = 'yarel::vm::string_store::find_index'
+    n = 0
+    for f in sorted(c.fns.values(), key=lambda x: x.path):
+        if 'string_store' not in f.path or f.path == FI:
+            continue
+        org = None
+        for bi, t in f.calls():
+            nm = callee_name(t) or ''
+            if not (nm.endswith('::index') or nm.endswith('::index_mut')) or len(t['args']) != 2:
+                continue
+            base = op_place(t['args'][0])
+            bt = c.tstr(c.peel_refs(base.get('t', f.local_ty(base['l'])))) if base else ''
+            if 'Option<memory::Root<object::ObjString>>' not in bt:
+                continue
+            if org is None:
+                org = origins(f)
+            n += 1
+            ip = op_place(t['args'][1])
+            from_fi = ip is not None and any(q[0][0] == 'call' and q[0][2] == FI for q in org.get(ip['l'], ())) and \
+                not any(q[0][0] != 'call' or q[0][2] != FI for q in org.get(ip['l'], ()))
+            r.check(from_fi, '%s / slot index comes from find_index' % f.path, 'a slot of the intern table is addressed by an index that was not computed by '
+                    'find_index: a second probe sequence exists and look-ups can miss strings it placed', f.loc(t.get('sp')))
+    if n < 3:
+        raise Broken('C11', 'floor', 'only %d slot accesses found in string_store' % n)
     # Value equality / hashing of strings goes through the handle (valid because of I1-I3)
     vh = w.require_fn('yarel::<value::Value as std::hash::Hash>::hash', 'C11')
     r.check('hash' in {tok for q in origins(vh).values() for p_ in q for tok in p_[1:]}, 'Value::hash(ObjString) uses the cached content hash', 'string hashing changed', vh.loc())
